@@ -233,6 +233,8 @@ class Gen:
                     op["keep"] = True
                 elif x < 0.6:
                     op["keep"] = False
+            elif not any(op["n"] in model.knodes(q) for q in model.edges) and r.random() < 0.5:
+                op["keep"] = True  # directed: only for a node without incident hyperedges (nothing to shrink)
             elif r.random() < 0.3:
                 op["keep"] = False
             for q in model.edges:
@@ -245,6 +247,11 @@ class Gen:
             op = {"op": name, "ns": r.sample(nodes, r.randint(1, min(3, len(nodes))))}
             if k != "D" and r.random() < 0.4:
                 op["keep"] = True
+            elif k == "D":
+                iso = [n for n in nodes if not any(n in model.knodes(q) for q in model.edges)]
+                if iso and r.random() < 0.5:
+                    op["ns"] = r.sample(iso, r.randint(1, min(3, len(iso))))
+                    op["keep"] = True
             return op
         if name == "set_weight":
             f = self.present_frag(model)
